@@ -15,7 +15,7 @@
    in that table ([do_stmt]); with the bijection, "fails iff the key exists" reads "iff some live
    row holds the key". *)
 From stdpp Require Import gmap.
-From ColumnV Require Import Bytes Store StoreProofs StoreProofs4 StoreProofs7.
+From ColumnV Require Import Bytes Store StoreProofs StoreProofs2 StoreProofs4 StoreProofs6 StoreProofs7 StoreProofs8.
 
 Theorem c12_step : ∀ cs keys o,
   KeyBij cs keys → key_op_ok cs o → KeyBij (fst (key_step (cs, keys) o)) (snd (key_step (cs, keys) o)).
@@ -61,3 +61,23 @@ Theorem c12_commit_block : ∀ s t b p col,
   wf_row t → KeyOK (commit_block s t b).
 Proof. exact commit_block_key_ok. Qed.
 Print Assumptions c12_commit_block.
+
+(* across a whole commit (every dirty block, each judged in the state its commit meets; the
+   admissibility is the boolean Check.v evaluates on every recorded transaction) *)
+Theorem c12_commit : ∀ s t,
+  KeyOK s → wf_row t → blocks_keys_okb s t (dirty_blocks t) = true → KeyOK (commit s t).
+Proof. exact commit_key_ok. Qed.
+Print Assumptions c12_commit.
+
+(* one transaction, committed or rolled back *)
+Theorem c12_transaction : ∀ s body cp,
+  Quiescent s → KeyInv s → txn_wf s body = true → txn_keys_ok s body = true → KeyInv (fst (run_txn s body cp)).
+Proof. exact run_txn_key_inv. Qed.
+Print Assumptions c12_transaction.
+
+(* every state of every admissible history: the key table is the inverse of the key column, the
+   key column (if one was created) exists, and without one the table is empty *)
+Theorem c12_reachable : ∀ h,
+  history_ok coll0 h → history_keys_ok coll0 h → KeyInv (foldl hrun coll0 h).
+Proof. exact reachable_key_inv. Qed.
+Print Assumptions c12_reachable.
